@@ -1096,6 +1096,11 @@ class SyncInterpreter(BaseInterpreter[TContext, TEvent]):
             actor.send(target_event)
             return
 
+        # 🛑 `stop()` called from inside this macrostep has already released
+        #    every pending send; one scheduled now would outlive it.
+        if self.status == "stopped":
+            return
+
         cancel_flag = threading.Event()
 
         def _fire() -> None:
@@ -1163,6 +1168,11 @@ class SyncInterpreter(BaseInterpreter[TContext, TEvent]):
             ActorSpawningError: If the specified service is not a valid
                 `MachineNode` or a factory that returns one.
         """
+        # 🛑 `stop()` called from inside this macrostep has already stopped
+        #    every child; one spawned now would never be stopped by anyone.
+        if self.status == "stopped":
+            return
+
         # 🕵️ Determine mode (blocking vs. non-blocking) and service key
         blocking = action_def.type.startswith("spawn_blocking_")
         key = spawn_service_key(action_def.type)
